@@ -75,9 +75,9 @@ def gen_design(r, cfg):
                     m["ansi"] = False
             for _ in range(r.randint(0, cfg.get("max_wires", 3))):
                 w = r.choice([1, 1, 2, 4])
-                lsb = r.choice([0, 0, 0, 1, 3])
+                lsb = r.choice([0, 0, 0, 0, 1, 3, -1, -2, -3])   # wires may be based below zero
                 m["wires"].append({"name": ident(r, pn, 0.08), "msb": lsb + w - 1, "lsb": lsb,
-                                   "ranged": w > 1 or lsb > 0 or r.random() < 0.2})
+                                   "ranged": w > 1 or lsb != 0 or r.random() < 0.2})
             if r.random() < 0.3:
                 # 1-3 header parameters, each with its own 'parameter' keyword; some carry a range or a type, which
                 # belongs to that one parameter only (the reader keeps it in the key:  "[3:0] RESET")
